@@ -46,7 +46,7 @@ func init() {
 			"Non-trivial+distinct = hash of (width, string) for non-empty strings; hash of (width, a, b) FirstDiff pairs.",
 		Assumptions: []string{"Get only for i < words(s); ToStr only on in-range word values; from >= 0; end = -1 or >= 0"},
 		Flavours:    releaseAnd386,
-		Required: []string{"w=1", "w=2", "w=4", "w=8", "tostr/partial-last-byte", "tostr/empty", "firstdiff/end=-1", "firstdiff/from>=lim", "firstdiff/end-beyond-shorter", "firstdiff/found", "firstdiff/none",
+		Required: []string{"arguments-in-read-only-memory", "w=1", "w=2", "w=4", "w=8", "tostr/partial-last-byte", "tostr/empty", "firstdiff/end=-1", "firstdiff/from>=lim", "firstdiff/end-beyond-shorter", "firstdiff/found", "firstdiff/none",
 			"firstdiff/prefix-pair", "firstdiff/end>=MaxInt/8", "firstdiff/end<-1", "strs/empty-list", "strs/append-to-element", "strs/batch>=4096", "strs/tostrs-partial-byte-element-not-last", "strs/tostrs-overlapping-views", "byte>=0x80", "len>=300", "tostr/long-result-retained"},
 		Families: func(c *mon.Config) []mon.Family {
 			return []mon.Family{
@@ -260,6 +260,15 @@ func c08ToStr(w *mon.W, idx int) {
 	w.Op, w.A, w.B = "ToStr", int64(n), int64(l)
 	// the argument is a view into a larger array (a prefix of a longer word slice): what lies beyond len is not ours
 	words, guard := dirtyB(words)
+	if (l+int(n))%3 == 1 { // or lives in memory that cannot be written (ro.go)
+		roReset(w)
+		v := roBytes(w, in)
+		if rel, ok := roSeal(w); ok {
+			words = v
+			defer rel()
+			w.Bucket("arguments-in-read-only-memory")
+		}
+	}
 	got := bw.ToStr(words)
 	exp := c08Pack(in, n)
 	w.Eval(1)
@@ -404,6 +413,12 @@ func c08Strs(w *mon.W, idx int) {
 	}
 	w.Op, w.A = "FromStrs", int64(n)
 	qStrs, gStrs := dirtyStrs(strs) // the list as a view into a larger array
+	if idx%4 == 1 && k > 0 { // or in memory that cannot be written (ro.go)
+		if v, rel, ok := roOneStrs(w, strs); ok {
+			qStrs = v
+			defer rel()
+		}
+	}
 	ws := bw.FromStrs(qStrs)
 	if !gStrs() {
 		w.Fail("FromStrs/wrote-outside-len-of-argument", mon.D{"width": n, "nstrs": len(strs)})
@@ -477,7 +492,17 @@ func c08Strs(w *mon.W, idx int) {
 			outer[i] = sentinel
 		}
 		copy(outer[1:], raw)
-		got := bw.ToStrs(outer[1 : 1+len(raw) : len(raw)+2])
+		qRaw := outer[1 : 1+len(raw) : len(raw)+2]
+		if idx%4 == 2 { // the batch - headers and words - in memory that cannot be written (ro.go)
+			roReset(w)
+			v := roBBs(w, raw)
+			if rel, ok := roSeal(w); ok {
+				qRaw = v
+				defer rel()
+				w.Bucket("arguments-in-read-only-memory")
+			}
+		}
+		got := bw.ToStrs(qRaw)
 		if len(outer[0]) != 1 || len(outer[1+len(raw)]) != 1 || len(outer[2+len(raw)]) != 1 || &outer[0][0] != &sentinel[0] || &outer[1+len(raw)][0] != &sentinel[0] {
 			w.Fail("ToStrs/wrote-outside-len-of-argument", mon.D{"width": n, "elements": len(raw)})
 			return
